@@ -27,12 +27,15 @@ from lib.core import exc_name, idset
 from props.c07 import admissible
 
 ID = "C11"
-AUDIT_IMPORTS = ["HypatiaProofs.Properties.C11"]
+AUDIT_IMPORTS = ["HypatiaProofs.Properties.C11", "HypatiaProofs.Properties.C11Obj"]
 THEOREMS = ["Hyp.RSet." + t for t in (
     "c11_first", "c11_peeks_do_not_consume", "c11_first_idempotent", "c11_one", "c11_len_iter_all",
     "c11_resolver", "c11_no_resolver", "c11_query_result", "c11_iteration_consumes_only_streams",
     "c11_sort_len", "c11_chained_sort", "c11_chained_sort_keeps_first_order", "c11_sort_marks_stable",
-    "c11_default_sort_raises", "c11_intersect", "c11_intersect_resultset")]
+    "c11_default_sort_raises", "c11_intersect", "c11_intersect_resultset")] + \
+    ["Hyp.RSet.Obj." + t for t in (      # kept all()/iter() objects (Properties/C11Obj.lean)
+        "c11_kept_object_misses_the_id_first_found", "c11_top_object_yields_the_stream", "c11_d25_witness",
+        "c11_consume_top", "c11_consume_lower")]
 CASES = {"quick": 8000, "thorough": 200000}
 BUDGET_S = {"quick": 40, "thorough": 700}
 BATCH = 40
@@ -53,6 +56,12 @@ RULE = ("each case: 1-3 FieldIndexes over docids 0..11 (1-5 distinct values, so 
         "chains of 2-3 sorts with limits 1..25, size/k +-1 for k in 4..64, size/2, size+-1 or none, both directions "
         "(quick seed 0: 22 second sorts over >= 1024 ids with limit <= size/16, 13 with a larger limit, 21 over "
         "300-1023 ids), and direct sorts of shuffled collections with sort_type stable/timsort. "
+        "Resolvers raising KeyError for ids d % m == k: 25% of the resolver-carrying result sets (quick seed 0: "
+        "2825 result sets; first() raised 1180 times, 1160 later first() on such a result, 2130 loops ended by "
+        "KeyError). 8% of the operations: keep all()/iter() (hall/hiter), call other methods, loop afterwards "
+        "(hdrain/htake) - quick seed 0: 16094 kept objects looped over, 4399 of a one-shot ids (resolver 1753), "
+        "between taking and looping: first/one/len only 38%, a sort 14%, consuming calls 18%, nothing 19%, an earlier loop over the same object 12%; 4%: 2-3 "
+        "sorted results of one index read alternately. "
         "non-trivial = a chained sort with a tie was observed and some first() "
         "was called on a generator-backed result set before it was iterated")
 LEVEL_TEXT = ("Lean 4 theorems for both id representations (collection / one-shot stream) and every resolver: "
@@ -61,7 +70,11 @@ LEVEL_TEXT = ("Lean 4 theorems for both id representations (collection / one-sho
               "= min(count, limit) after a sort of all-sortable ids (via C07), a second sort is the stable sort "
               "of the first order by the second key, intersect = filter in order (argument result set still "
               "iterable), default-flag sort with an unsortable id raises Unsortable in the call or at the end of "
-              "iteration; tied to hypatia.util.ResultSet over real FieldIndexes by a differential run")
+              "iteration; object level (the iterator objects behind a one-shot ids): an all()/iter() object taken before a "
+              "successful first() yields afterwards the sequence without its first id, the object a _resolve_all "
+              "generator binds when its loop starts yields all of it (finding D25 with witness); tied to "
+              "hypatia.util.ResultSet over real FieldIndexes by a differential run incl. resolvers that raise and "
+              "kept all()/iter() objects")
 LEVEL_NOTE = ("trusted: Lean kernel (propext, Quot.sound, Classical.choice); C07's trusted base for the sort "
               "underneath; generators/itertools.chain/islice as modelled (a generator that raised is closed); "
               "TextIndex.sort (list result, relevance) is covered by C20, only FieldIndex sorts here; sampled "
@@ -85,6 +98,23 @@ Size- and object-kind-dependent changes (builder wt_strong4; scratch copies /var
   M11a sort(): the result is marked STABLE only when numids < 1000 (a third party's chained sort of a big result
        may pick n-best / forward scan)                                                                     caught
   M11b all(): `resolver is None` -> `not resolver`                                                         caught
+Exceptions from the resolver, kept all()/iter() objects, sorted results in flight (builder wt_strong7):
+  resolvers that RAISE KeyError for every id d with d % m == k (25% of the resolver-carrying result sets); the
+  session goes on after the exception (first/one: nothing consumed; all/iter/take: the loop of `_resolve_all` ends
+  at that id, which a one-shot `ids` has lost).  `hall s h r` / `hiter s h` only TAKE `docs = rs.all(resolve)` /
+  `it = iter(rs)`, other methods are called (first/one/len 58%, sort, take, iter, intersect, a second kept object),
+  then `hdrain h` / `htake h k` run the loop.  The driver models the iterator OBJECTS (HypatiaModel/ResultSetObj.lean:
+  the tower of chain objects first() stacks on a one-shot ids, which object a caller holds, `_resolve_all`
+  binding `self.ids` only when its body starts); the specification answers - the whole sequence - while nothing
+  but first/one/len happened since the object was taken.  FINDING D25 (unchanged tree): without a resolver (or
+  resolve=False) the kept object IS the one-shot iterator, a later first() takes its first id away from it
+  (`ResultSet((d for d in [3,1,2]),3,None)`: `docs = rs.all(); rs.first(); list(docs) == [1, 2]`); classified only
+  where the object-level model agrees with the code.  Blocks of 2-3 sorted results of one index kept unread and
+  then read alternately (4% of the operations).
+  seeded C11_G  first() calls the resolver before re-chaining the pulled id                  MISSED before, now caught
+  seeded C11_H  all() returns a generator expression (binds iter(self.ids) at the call)     MISSED before, now caught
+  seeded C18_G  scan_forward keeps one working set per index                                 caught (also before)
+  M11m  __iter__ with a resolver returns map(resolver, self.ids)                                         caught
 """
 
 POOL = list(range(12))
